@@ -103,10 +103,12 @@ Definition timed (dl : option dlT) : bool := match dl with Some _ => true | None
 Definition after_return (w : world) (t : tid) (p : pcT) (r : Z) : world :=
   match p with
   | Idle => w
-  (* Signal::set : lock; signaled = true; unlock; broadcast *)
-  | SigSetLock => goto (emit (set_sigf w true) (EvSigWrite t true)) t SigSetUnlock
-  | SigSetUnlock => goto w t SigSetBcast
-  | SigSetBcast => finish w t 0
+  (* Signal::set : lock; signaled = true; broadcast; unlock  - the waiters are woken while the mutex is still held
+     (fixes/C10/04): a waiter that sees the flag may destroy the Signal as soon as it owns the mutex, so set() touches
+     nothing of the Signal after its unlock *)
+  | SigSetLock => goto (emit (set_sigf w true) (EvSigWrite t true)) t SigSetBcast
+  | SigSetBcast => goto w t SigSetUnlock
+  | SigSetUnlock => finish w t 0
   (* Signal::reset : lock; signaled = false; unlock *)
   | SigResetLock => goto (emit (set_sigf w false) (EvSigWrite t false)) t SigResetUnlock
   | SigResetUnlock => finish w t 0
